@@ -28,7 +28,7 @@ T_Rules   == Q_Rules \cup {RDefault, RAny("Escalate"), RTyped(<< <<"PanicNilErro
 T_Retries == Q_Retries \cup {Retry(2, 0)}
 T_Backoff == Q_Backoff \cup {Backoff(200, 100, 0)}      \* normalised by WithExponentialBackoff to 200/200/200
 T_Sup     == {NoSup} \cup {Sup(st, r, rt, b) : st \in Strategies, r \in T_Rules, rt \in T_Retries, b \in T_Backoff}
-T_Pass    == {NoPass, TimeBased(1), CountBased(1), LongLived}
+T_Pass    == {NoPass, TimeBased(3600000), CountBased(1000000), LongLived}   \* never due while a case runs
 T_Reent   == {NoReent, Reent("Off", 3), Reent("AllowAll", 7)}
 T_Role    == Q_Role \cup {[set |-> TRUE, v |-> ""]}
 T_Deps    == {<<>>, <<"d1">>}
